@@ -1,6 +1,7 @@
 import TdVerif.Sexp
 import TdVerif.Model.C07Storage
 import TdVerif.Model.C07Table
+import TdVerif.Model.C07SetStr
 
 namespace TdVerif.Drive
 open TdVerif Sexp TdVerif.C07
@@ -95,6 +96,18 @@ def handleC07 (cmd : String) (args : List Sexp) : Option Sexp :=
   | "c07.contig", [.list offs] => do
       let offs ← nats? offs
       pure (.atom (if isContig ⟨0, offs⟩ then "true" else "false"))
+  | "c07.setstr", [init, .atom locked, .atom mode, .atom k, vobj, .atom vkey, .list vals] => do
+      -- `_set_str` of objs[0] with the value tensor objs[vobj][vkey]
+      let s ← C07D.initOf? init
+      let vobj ← asNat? vobj
+      let vals ← ints? vals
+      let value ← (s.objs.getD vobj []).lookup vkey
+      let mode ← (match mode with | "no" => some InplaceMode.no | "yes" => some .yes | "best" => some .best | _ => none)
+      pure (match setStr (s.objs.getD 0 []) s.store (locked = "true") mode k value vals with
+        | .ok (b, st) => tagged "ok" [C07D.stateToSexp s.next { s with store := st, objs := b :: s.objs.drop 1 }]
+        | .error .key => .list [.atom "err", .atom "key"]
+        | .error .lock => .list [.atom "err", .atom "lock"]
+        | .error .shape => .list [.atom "err", .atom "value"])
   | "c07.run", [init, .list (.atom "steps" :: steps)] => do
       let s ← C07D.initOf? init
       let steps ← steps.mapM C07D.dstepOf?
